@@ -1,6 +1,7 @@
 """C05 - every request transaction completes exactly once (who-may-access + E3 tables)."""
 import re
 from rules import agent as A
+from rules import agent_e2 as AE
 
 LEVEL = "proof"
 
@@ -48,5 +49,6 @@ def run(prog, chk, tier):
     A.handle_stun_table(prog, chk)
     A.taken_state_untouched(prog, chk)
     A.take_outstanding_table(prog, chk)
-    A.req_poll_table(prog, chk)
+    AE.req_poll(prog, chk)
+    AE.req_new(prog, chk, "request-new", {"fresh"})
     A.agent_poll_table(prog, chk)
